@@ -162,6 +162,10 @@ pub fn build(v: &VolCfg, seed: u64) -> Result<Built, String> {
             active = r.below(nfats);
             ext_flags = 0x80 | active as u16;
             features.push("FAT mirroring disabled");
+        } else if r.chance(1, 3) {
+            // the active-FAT number only means something while mirroring is off; a formatter may leave anything there
+            ext_flags = r.range(1, 15) as u16;
+            features.push("mirroring enabled with a stale non-zero active-FAT number");
         }
         bs[40..42].copy_from_slice(&ext_flags.to_le_bytes());
         bs[48..50].copy_from_slice(&(fsinfo_sec as u16).to_le_bytes());
